@@ -8,6 +8,8 @@
 (*   Repeat    r                            pixman_image_set_repeat                            *)
 (*   Fetch     role x0 y0 n rows dx out     OP_SRC composite into a8r8g8b8; out[j][i] = the    *)
 (*                                          destination pixel that samples (x0+i, y0+j)        *)
+(*   FetchWide mode role x0 y0 n rows max out    the same through the wide pipeline; out[j][i] =   *)
+(*                                          channel numerators <<a,r,g,b>> over max           *)
 (* Every Fetch must show, pixel by pixel, the reference value of Sample.tla (projective         *)
 (* transforms: at some admissible position).                                                    *)
 EXTENDS Sample, TraceIO
@@ -57,7 +59,12 @@ TFetch ==
              /\ Deviation("C08-solid-ignores-kernel-gain", l)
     /\ l' = l + 1
 
+TFetchWide ==
+    /\ l <= TraceLen /\ TraceLog[l].e = "FetchWide"
+    /\ LET ev == TraceLog[l] IN FetchWide(ev.x0, ev.y0, ev.n, ev.rows, ev.out, ev.max)
+    /\ l' = l + 1
+
 TInit == Init /\ l = 1
-TNext == TReset \/ TImage \/ TTransform \/ TFilter \/ TRepeat \/ TFetch
+TNext == TReset \/ TImage \/ TTransform \/ TFilter \/ TRepeat \/ TFetch \/ TFetchWide
 TSpec == TInit /\ [][TNext]_<<svars, l>>
 =============================================================================
